@@ -25,6 +25,9 @@ ClaimOK(r, m) ==
                            /\ r.nonceProv.prk.id = r.key.prk.id        \* key and nonce of one generation share the ratchet secret
       [] r.k = "cth" -> KS(m)!ConfirmedHash(r.prov, r.epoch)
       [] r.k = "treehash" -> TRUE
+      [] r.k = "call-mac" -> KS(m)!MacKey(r.key)
+      [] r.k = "call-kem" -> KS(m)!KemIkm(r.ikm)
+      [] r.k = "call-seal" -> KS(m)!AeadKey(r.key, m.nk, "key") /\ (r.nonce.op \in {"leaf", "none"} \/ KS(m)!AeadKey(r.nonce, m.nn, "nonce"))
       [] OTHER -> FALSE
 
 RowOK == l <= Len(Rows) => ClaimOK(Rows[l], IF Rows[l].k = "meta" THEN Rows[l] ELSE meta)
